@@ -81,6 +81,7 @@ type clhtResult struct {
 	Ranges  []rangeRec   `json:"ranges"`
 	Size    int          `json:"size"`     // Size() at quiescence
 	Present int          `json:"present"`  // keys found by Get at quiescence (checked + filler)
+	ChurnNC int64        `json:"churnnc"`  // filler Computes whose update function did not run exactly once
 	Growths int64        `json:"growths"`
 	Shrinks int64        `json:"shrinks"`
 }
@@ -113,6 +114,7 @@ func runCLHTScenario(sc clhtScenario) clhtResult {
 		mu.Unlock()
 	}
 	var stop atomic.Bool
+	var churnNC atomic.Int64
 	client := func(c int) func() {
 		rng := rand.New(rand.NewSource(sc.Seed*131 + int64(c)))
 		return func() {
@@ -165,11 +167,19 @@ func runCLHTScenario(sc clhtScenario) clhtResult {
 		for round := 0; round < 3 && !stop.Load(); round++ {
 			for i := 0; i < sc.Churn; i++ {
 				k := 1000 + i
-				m.Compute(k, func(old *vNode) *vNode { return &vNode{k, rng.Int()} })
+				nc := 0
+				m.Compute(k, func(old *vNode) *vNode { nc++; return &vNode{k, rng.Int()} })
+				if nc != 1 {
+					churnNC.Add(1)
+				}
 			}
 			for i := 0; i < sc.Churn; i++ {
 				k := 1000 + i
-				m.Compute(k, func(old *vNode) *vNode { return nil })
+				nc := 0
+				m.Compute(k, func(old *vNode) *vNode { nc++; return nil })
+				if nc != 1 {
+					churnNC.Add(1)
+				}
 			}
 		}
 	}
@@ -266,6 +276,7 @@ func runCLHTScenario(sc clhtScenario) clhtResult {
 			res.Present++
 		}
 	}
+	res.ChurnNC = churnNC.Load()
 	res.Growths, res.Shrinks = m.totalGrowths.Load(), m.totalShrinks.Load()
 	sort.Slice(res.Events, func(i, j int) bool { return res.Events[i].Seq < res.Events[j].Seq })
 	return res
